@@ -152,6 +152,7 @@ def main():
     ndocs = 300 if run.tier == "quick" else 8000
     rng = run.rng
     blocks, docs, nq, n_err, n_styled = [], {}, 0, 0, 0
+    n_edited = 0
     dist = Dist()
     for k in range(ndocs):
         g = docgen.Gen(rng, style_density=(0.10, 0.2, 0.3)[k % 3], anim_density=(0.0, 0.03, 0.06)[k % 3], display_p=0.02,
@@ -179,11 +180,36 @@ def main():
         nq += len(qs); docs[k] = (d, qs)
         defs = f"Definition d{k} := {L.doc_lit(d)}.\nDefinition q{k} : list (Q * option (list elem)) := [{'; '.join(items)}]."
         blocks.append((k, defs, [f"cases_isd d{k} q{k}", f"cases_styles [] d{k} q{k}", f"cases_hyp d{k} q{k}"], [len(qs)] * 3))
+        # "every snapshot element carries the values style resolution prescribes" — of the document AS IT IS NOW: on a deep copy that has
+        # already been snapshotted, initial values are put / replaced / removed through the model API and the snapshots taken again
+        # (anything that remembers initial values between calls shows as a model/code or S disagreement on the edited document)
+        if k % 5 == 4:
+            import copy
+            de = copy.deepcopy(d)
+            for t in qs[:2]: isdcore.snapshot(de, t)
+            edits = []
+            for _ in range(rng.randint(1, 3)):
+                p = rng.choice([q for q in docgen.ALL if q.__name__ not in ("Position",)])
+                if de.has_initial_value(p) and rng.random() < 0.4:
+                    de.remove_initial_value(p); edits.append(f"remove_initial_value({p.__name__})")
+                else:
+                    try:
+                        de.put_initial_value(p, docgen.rvalue(rng, p)); edits.append(f"put_initial_value({p.__name__})")
+                    except Exception:
+                        pass
+            if edits:
+                ke = k + 1000000; ie = []
+                for t in qs:
+                    lit, obj = isdcore.snapshot(de, t)
+                    ie.append(f"({L.qlit(t)}, {'None' if lit is None else '(Some ' + lit + ')'})")
+                nq += len(qs); docs[ke] = (de, qs); n_edited += 1
+                blocks.append((ke, f"Definition d{ke} := {L.doc_lit(de)}.\nDefinition q{ke} : list (Q * option (list elem)) := [{'; '.join(ie)}].",
+                               [f"cases_isd d{ke} q{ke}", f"cases_styles [] d{ke} q{ke}", f"cases_hyp d{ke} q{ke}"], [len(qs)] * 3))
     files = isdcore.write_shards("Cases_C03_", HEADER, blocks)
     bad, broken = isdcore.eval_shards(files)
     C.clean_cases("Cases_C03_")
     m_bad = bad.get(0, []); s_bad = bad.get(1, []); h_bad = bad.get(2, [])
-    run.log(f"{ndocs} documents, {nq} snapshots ({n_err} raised), {n_styled} styled elements: model/code mismatches {len(m_bad)}, "
+    run.log(f"{ndocs} documents (+{n_edited} with initial values edited between snapshots), {nq} snapshots ({n_err} raised), {n_styled} styled elements: model/code mismatches {len(m_bad)}, "
             f"S failures {len(s_bad)}, theorem hypotheses false {len(h_bad)}, broken {len(broken)}")
     run.log("situations reached: " + ", ".join(f"{k}={v}" for k, v in sorted(dist.sit.items())))
 
@@ -212,7 +238,7 @@ def main():
                         "element of every snapshot is compared with M and with the by-property specification in Coq. "
                         "distinct_nontrivial = styled snapshot elements compared.",
                    samples=[dict(document=L.doc_lit(docs[1][0])[:1500], times=[str(t) for t in docs[1][1]])],
-                   documents=ndocs, snapshots_raising=n_err, model_code_mismatches=len(m_bad), s_failures_on_code=len(s_bad), theorem_hypotheses_false=len(h_bad),
+                   documents=ndocs, documents_edited_between_snapshots=n_edited, snapshots_raising=n_err, model_code_mismatches=len(m_bad), s_failures_on_code=len(s_bad), theorem_hypotheses_false=len(h_bad),
                    input_distribution=dist.report())
     run.assumptions += ["binary64 rounding inside the Python computation is not modelled: numbers are compared with relative tolerance 1e-9",
                         "well-formed documents with unique xml:id (used to trace snapshot elements back to the source)",
